@@ -3,7 +3,7 @@ from ..cfg import cfg_of
 from ..defuse import du_of, walk, peel, callee_name, fmt
 from ..conds import lits_of, all_edge_lits
 from ..callgraph import cg_of
-from ..common import arg_term, contains_call, field_path, assigns_of_return
+from ..common import arg_term, contains_call, field_path, assigns_of_return, mentions_param
 
 TEXT = ("M1: the array merge never removes: no call with a removing effect (remove, retain, truncate, clear, drain, "
         "pop, swap_remove, dedup, split_off, splice) is applied to its destination vector. M2: in the merge loop, every "
@@ -40,7 +40,7 @@ def run(facts, res):
                 if c is None or not t.args or "Vec<" not in (c.path + (c.self_ty or "") + (c.impl_self or "")) and "vec::Vec" not in c.path:
                     continue
                 r = du.operand_term(t.args[0], 12)
-                on_dest = any((x[0] == "param" and x[2] == "order_n") or (x[0] == "upvar" and x[2] == "order_n") for x in walk(r))
+                on_dest = mentions_param(r, b, 2)
                 if not on_dest:
                     continue
                 if c.name in REMOVERS:
@@ -54,7 +54,7 @@ def run(facts, res):
         cfg = cfg_of(ma)
         du = du_of(ma)
         ins_blocks = [bi for bi, t in ma.calls() if t.callee is not None and t.callee.name in ("insert", "push") and
-                      any(x[0] == "param" and x[2] == "order_n" for x in walk(du.operand_term(t.args[0], 12)))]
+                      mentions_param(du.operand_term(t.args[0], 12), ma, 2)]
         # the position searches: discriminant switches on the result of Iterator::position
         searches = {}
         for e, l in all_edge_lits(ma, facts):
@@ -169,7 +169,7 @@ def run(facts, res):
                 if c is None or "HashMap" not in c.path or not t.args:
                     continue
                 r = du.operand_term(t.args[0], 10)
-                if any((x[0] == "param" and x[2] == "c") or (x[0] == "upvar" and x[2] == "c") for x in walk(r)):
+                if mentions_param(r, b, 1):
                     lookups.setdefault(c.name, []).append(b.loc(t.line))
         res.instance("M4", "unflatten accesses the collection through: %s" % {k: len(v) for k, v in lookups.items()}, uf.loc())
         bad = set(lookups) - {"remove"}
